@@ -334,6 +334,35 @@ func hotKit(m *rulesh.Mod[hotspot.Rule]) *kit[hotspot.Rule] {
 		}
 	}
 	kt.stat = func(r *rng.R, res string) statScen[hotspot.Rule] {
+		if r.Chance(2, 5) {
+			// concurrency: T calls for value 1 are in flight when the rule is replaced by a modified one
+			// with the same statistic parameters (only BurstCount, which a concurrency rule never reads,
+			// or the threshold differ): the in-flight count must be kept
+			T := r.PickI(1, 2)
+			sc := statScen[hotspot.Rule]{BaseMs: 1700000000000, Reuse: r.Chance(3, 4)}
+			sc.Pre = []*hotspot.Rule{{Resource: res, MetricType: hotspot.Concurrency, ControlBehavior: hotspot.Reject, Threshold: T + r.PickI(0, 5), ParamsMaxCapacity: r.PickI(0, 50)}}
+			for i := int64(0); i < T; i++ {
+				sc.Warm = append(sc.Warm, ev{Dt: 1, Arg: 1, Hold: true})
+			}
+			mod := *sc.Pre[0]
+			mod.Threshold = T
+			mod.BurstCount = 1
+			if !sc.Reuse {
+				mod.ParamsMaxCapacity += 7
+			}
+			sc.Mod = []*hotspot.Rule{&mod}
+			if r.Bool() {
+				sc.Mod = []*hotspot.Rule{{Resource: res, MetricType: hotspot.QPS, ControlBehavior: hotspot.Reject, Threshold: huge, DurationInSec: 1}, &mod}
+			}
+			sc.Probe = []ev{{Dt: 1, Arg: 1}, {Dt: 0, Arg: 2}}
+			// own ledger: T calls for value 1 are open, none for value 2
+			sc.Expect = []string{"pass", "pass"}
+			if sc.Reuse {
+				sc.Expect[0] = "block:" + base.BlockTypeHotSpotParamFlow.String()
+			}
+			sc.Label = fmt.Sprintf("hotspot concurrency: %d calls for value 1 in flight, then threshold %d (capacity %d)", T, T, mod.ParamsMaxCapacity)
+			return sc
+		}
 		k := int(r.PickI(8, 9, 10, 10))
 		t2 := r.PickI(5, 20, 11)
 		sc := statScen[hotspot.Rule]{BaseMs: 1700000000000, Reuse: r.Chance(3, 4)}
